@@ -5,6 +5,7 @@ from ..cfg import Cfg, FlagReach, reach, sccs
 from ..common import callee_names, last_named_field, logic_body, switch_atom
 from ..facts import callee, const_int, op_const, op_local, op_place
 from ..flow import Flow, identity_through
+from ..inline import inlined, same_impl_helpers
 from .C09 import is_await_cycle, third_party_block
 
 CONFIGS_QUICK = ["K1"]
@@ -84,6 +85,10 @@ def one(rep, prog, cfg):
     if b is None:
         rep.fail("C17.anchor", cfg, "Client::album_art", "public anchor Client::album_art (with an extend_from_slice) not found")
         return
+    # requests may be issued through private (async) helpers of the client: analyse album_art with them spliced in (A12)
+    b = inlined(prog, b, same_impl_helpers(b))
+    if b.raw.get("inlined"):
+        rep.sample({"C17 helpers spliced into album_art (%s)" % cfg: sorted(set(b.raw["inlined"]))})
     g = Cfg(b)
     fl = Flow(b)
     ext = [(bb, t) for bb, t in b.calls() if EXTEND in callee_names(t)]
